@@ -69,16 +69,22 @@ Record astate := {
   f_inf : option bool;         (* owner's knowledge of trial.infeasible *)
   f_final : bool;              (* owner's knowledge: final_measurement is set *)
   f_reward : bool;             (* r_reward is not None *)
-  d_reg : bool; d_ip : bool; d_lat : bool; d_cc : bool; d_dp : bool; d_inf : bool; d_fb : bool; d_best : bool   (* the ghost debts, exactly *)
+  d_reg : bool; d_ip : bool; d_lat : bool; d_cc : bool; d_dp : bool; d_inf : bool; d_fb : bool; d_best : bool;   (* the ghost debts, exactly *)
+  f_spec : bool;               (* the algorithm is set up: DNASpec stored and both counter resets done (monotone) *)
+  f_specnone : bool;           (* under LReg: the algorithm has no DNASpec yet *)
+  d_rnp : bool; d_rnf : bool;  (* setup started here: `_num_proposals = 0` / `_num_feedbacks = 0` still to come *)
+  d_np : bool                  (* a proposal was counted whose trial is not yet appended *)
 }.
 
 Definition a0 : astate :=
   {| a_ok := true; a_locks := []; f_regmiss := false; f_idfresh := false; f_room := false; f_gotlat := false; f_latdone := false; f_curpend := false;
      f_bestfresh := false; f_better := false; f_hasmeas := false; f_mine := false; f_own := false; f_inf := None; f_final := false; f_reward := false;
-     d_reg := false; d_ip := false; d_lat := false; d_cc := false; d_dp := false; d_inf := false; d_fb := false; d_best := false |}.
+     d_reg := false; d_ip := false; d_lat := false; d_cc := false; d_dp := false; d_inf := false; d_fb := false; d_best := false;
+     f_spec := false; f_specnone := false; d_rnp := false; d_rnf := false; d_np := false |}.
 
 Definition no_debt (a : astate) : bool :=
-  negb (d_reg a) && negb (d_ip a) && negb (d_lat a) && negb (d_cc a) && negb (d_dp a) && negb (d_inf a) && negb (d_fb a) && negb (d_best a).
+  negb (d_reg a) && negb (d_ip a) && negb (d_lat a) && negb (d_cc a) && negb (d_dp a) && negb (d_inf a) && negb (d_fb a) && negb (d_best a) &&
+  negb (d_rnp a) && negb (d_rnf a) && negb (d_np a).
 
 (* generic record rebuilders *)
 Definition with_locks (ls : list lockref) (a : astate) : astate :=
@@ -87,34 +93,50 @@ Definition with_locks (ls : list lockref) (a : astate) : astate :=
      f_latdone := f_latdone a && holds LStudy ls; f_curpend := f_curpend a && holds LStudy ls; f_bestfresh := f_bestfresh a && holds LStudy ls;
      f_better := f_better a && holds LStudy ls;
      f_hasmeas := f_hasmeas a; f_mine := f_mine a; f_own := f_own a; f_inf := f_inf a; f_final := f_final a; f_reward := f_reward a;
-     d_reg := d_reg a; d_ip := d_ip a; d_lat := d_lat a; d_cc := d_cc a; d_dp := d_dp a; d_inf := d_inf a; d_fb := d_fb a; d_best := d_best a |}.
+     d_reg := d_reg a; d_ip := d_ip a; d_lat := d_lat a; d_cc := d_cc a; d_dp := d_dp a; d_inf := d_inf a; d_fb := d_fb a; d_best := d_best a;
+     f_spec := f_spec a; f_specnone := f_specnone a && holds LReg ls; d_rnp := d_rnp a; d_rnf := d_rnf a; d_np := d_np a |}.
 
 Definition set_study_facts (idf room gotlat latdone curpend bestfresh better : bool) (a : astate) : astate :=
   {| a_ok := a_ok a; a_locks := a_locks a; f_regmiss := f_regmiss a;
      f_idfresh := idf; f_room := room; f_gotlat := gotlat; f_latdone := latdone; f_curpend := curpend; f_bestfresh := bestfresh; f_better := better;
      f_hasmeas := f_hasmeas a; f_mine := f_mine a; f_own := f_own a; f_inf := f_inf a; f_final := f_final a; f_reward := f_reward a;
-     d_reg := d_reg a; d_ip := d_ip a; d_lat := d_lat a; d_cc := d_cc a; d_dp := d_dp a; d_inf := d_inf a; d_fb := d_fb a; d_best := d_best a |}.
+     d_reg := d_reg a; d_ip := d_ip a; d_lat := d_lat a; d_cc := d_cc a; d_dp := d_dp a; d_inf := d_inf a; d_fb := d_fb a; d_best := d_best a;
+     f_spec := f_spec a; f_specnone := f_specnone a; d_rnp := d_rnp a; d_rnf := d_rnf a; d_np := d_np a |}.
 
 Definition set_cur_facts (hasmeas own : bool) (inf : option bool) (final : bool) (a : astate) : astate :=
   {| a_ok := a_ok a; a_locks := a_locks a; f_regmiss := f_regmiss a;
      f_idfresh := f_idfresh a; f_room := f_room a; f_gotlat := f_gotlat a; f_latdone := f_latdone a; f_curpend := f_curpend a; f_bestfresh := f_bestfresh a;
      f_better := f_better a;
      f_hasmeas := hasmeas; f_mine := f_mine a; f_own := own; f_inf := inf; f_final := final; f_reward := f_reward a;
-     d_reg := d_reg a; d_ip := d_ip a; d_lat := d_lat a; d_cc := d_cc a; d_dp := d_dp a; d_inf := d_inf a; d_fb := d_fb a; d_best := d_best a |}.
+     d_reg := d_reg a; d_ip := d_ip a; d_lat := d_lat a; d_cc := d_cc a; d_dp := d_dp a; d_inf := d_inf a; d_fb := d_fb a; d_best := d_best a;
+     f_spec := f_spec a; f_specnone := f_specnone a; d_rnp := d_rnp a; d_rnf := d_rnf a; d_np := d_np a |}.
 
 Definition set_misc (regmiss mine reward : bool) (a : astate) : astate :=
   {| a_ok := a_ok a; a_locks := a_locks a; f_regmiss := regmiss;
      f_idfresh := f_idfresh a; f_room := f_room a; f_gotlat := f_gotlat a; f_latdone := f_latdone a; f_curpend := f_curpend a; f_bestfresh := f_bestfresh a;
      f_better := f_better a;
      f_hasmeas := f_hasmeas a; f_mine := mine; f_own := f_own a; f_inf := f_inf a; f_final := f_final a; f_reward := reward;
-     d_reg := d_reg a; d_ip := d_ip a; d_lat := d_lat a; d_cc := d_cc a; d_dp := d_dp a; d_inf := d_inf a; d_fb := d_fb a; d_best := d_best a |}.
+     d_reg := d_reg a; d_ip := d_ip a; d_lat := d_lat a; d_cc := d_cc a; d_dp := d_dp a; d_inf := d_inf a; d_fb := d_fb a; d_best := d_best a;
+     f_spec := f_spec a; f_specnone := f_specnone a; d_rnp := d_rnp a; d_rnf := d_rnf a; d_np := d_np a |}.
+
+Definition set_alg_facts (spec specnone rnp rnf np : bool) (a : astate) : astate :=
+  {| a_ok := a_ok a; a_locks := a_locks a; f_regmiss := f_regmiss a;
+     f_idfresh := f_idfresh a; f_room := f_room a; f_gotlat := f_gotlat a; f_latdone := f_latdone a; f_curpend := f_curpend a; f_bestfresh := f_bestfresh a;
+     f_better := f_better a;
+     f_hasmeas := f_hasmeas a; f_mine := f_mine a; f_own := f_own a; f_inf := f_inf a; f_final := f_final a; f_reward := f_reward a;
+     d_reg := d_reg a; d_ip := d_ip a; d_lat := d_lat a; d_cc := d_cc a; d_dp := d_dp a; d_inf := d_inf a; d_fb := d_fb a; d_best := d_best a;
+     f_spec := spec; f_specnone := specnone; d_rnp := rnp; d_rnf := rnf; d_np := np |}.
 
 Definition set_debts (reg ip lat cc dp inf fb best : bool) (a : astate) : astate :=
   {| a_ok := a_ok a; a_locks := a_locks a; f_regmiss := f_regmiss a;
      f_idfresh := f_idfresh a; f_room := f_room a; f_gotlat := f_gotlat a; f_latdone := f_latdone a; f_curpend := f_curpend a; f_bestfresh := f_bestfresh a;
      f_better := f_better a;
      f_hasmeas := f_hasmeas a; f_mine := f_mine a; f_own := f_own a; f_inf := f_inf a; f_final := f_final a; f_reward := f_reward a;
-     d_reg := reg; d_ip := ip; d_lat := lat; d_cc := cc; d_dp := dp; d_inf := inf; d_fb := fb; d_best := best |}.
+     d_reg := reg; d_ip := ip; d_lat := lat; d_cc := cc; d_dp := dp; d_inf := inf; d_fb := fb; d_best := best;
+     f_spec := f_spec a; f_specnone := f_specnone a; d_rnp := d_rnp a; d_rnf := d_rnf a; d_np := d_np a |}.
+
+(* the facts at the entry of a program: only the constructor (init = true) may run before the algorithm is set up *)
+Definition a0e (init : bool) : astate := set_alg_facts (negb init) false false false false a0.
 
 (* ---- transfer functions -------------------------------------------------------------------------------------- *)
 Definition inf_is (o : option bool) (v : bool) : bool := match o with Some x => Bool.eqb x v | None => false end.
@@ -128,7 +150,7 @@ Definition req_eff (e : effect) (a : astate) : bool :=
   | ENewStudy => R && f_regmiss a && negb L && no_debt a
   | ERegister => R && d_reg a && f_regmiss a
   | EGetLatest => negb (d_lat a)
-  | EAppend => L && f_idfresh a && f_room a && negb (d_ip a) && negb (d_lat a) && f_latdone a
+  | EAppend => L && f_idfresh a && f_room a && negb (d_ip a) && negb (d_lat a) && f_latdone a && f_spec a && d_np a
   | EIncPend => d_ip a
   | ESetLatest => L && d_lat a && f_latdone a
   | ESetCur => negb (cur_debts a) && f_mine a
@@ -136,7 +158,11 @@ Definition req_eff (e : effect) (a : astate) : bool :=
   | ESetFinalLast => f_own a && f_hasmeas a && (d_best a || inf_is (f_inf a) true) && negb (f_better a)
   | ESetFinalZero => f_own a && (d_best a || inf_is (f_inf a) true) && negb (f_better a)
   | ESetInf => f_own a && d_fb a && d_best a && inf_is (f_inf a) false && negb (d_inf a)
-  | EIncNF => f_own a && d_fb a && inf_is (f_inf a) false
+  | EIncNF => f_own a && d_fb a && inf_is (f_inf a) false && f_spec a
+  | ESetSpec => R && f_specnone a && negb (d_rnp a) && negb (d_rnf a)
+  | EResetNP => R && d_rnp a
+  | EResetNF => R && d_rnf a
+  | EIncNP => f_spec a && negb (d_np a)
   | EIncComp => d_cc a
   | EDecPend => d_dp a
   | EIncInf => d_inf a
@@ -152,9 +178,9 @@ Definition post_eff (e : effect) (a : astate) : astate :=
   | EGetLatest => set_misc (f_regmiss a) true (f_reward a)
                     (set_study_facts (f_idfresh a) (f_room a) L (f_latdone a) (f_curpend a) (f_bestfresh a) (f_better a) a)
   | EReadId => set_study_facts L (f_room a) (f_gotlat a) (f_latdone a) (f_curpend a) (f_bestfresh a) (f_better a) a
-  | EAppend => set_misc (f_regmiss a) true (f_reward a)
+  | EAppend => set_alg_facts (f_spec a) (f_specnone a) (d_rnp a) (d_rnf a) false (set_misc (f_regmiss a) true (f_reward a)
                  (set_debts (d_reg a) true true (d_cc a) (d_dp a) (d_inf a) (d_fb a) (d_best a)
-                    (set_study_facts false false false (f_latdone a) (f_curpend a) (f_bestfresh a) (f_better a) a))
+                    (set_study_facts false false false (f_latdone a) (f_curpend a) (f_bestfresh a) (f_better a) a)))
   | EIncPend => set_debts (d_reg a) false (d_lat a) (d_cc a) (d_dp a) (d_inf a) (d_fb a) (d_best a) a
   | ESetLatest => set_debts (d_reg a) (d_ip a) false (d_cc a) (d_dp a) (d_inf a) (d_fb a) (d_best a)
                     (set_study_facts (f_idfresh a) (f_room a) false false (f_curpend a) (f_bestfresh a) (f_better a) a)
@@ -167,6 +193,10 @@ Definition post_eff (e : effect) (a : astate) : astate :=
   | ESetInf => set_debts (d_reg a) (d_ip a) (d_lat a) (d_cc a) (d_dp a) true false false (set_cur_facts (f_hasmeas a) (f_own a) (Some true) (f_final a) a)
   | EComputeReward => set_misc (f_regmiss a) (f_mine a) (f_own a && inf_is (f_inf a) false && f_final a) a
   | EIncNF => set_debts (d_reg a) (d_ip a) (d_lat a) (d_cc a) (d_dp a) (d_inf a) false (d_best a) a
+  | ESetSpec => set_alg_facts false false true true (d_np a) a
+  | EResetNP => set_alg_facts (holds LReg (a_locks a) && negb (d_rnf a)) (f_specnone a) false (d_rnf a) (d_np a) a
+  | EResetNF => set_alg_facts (holds LReg (a_locks a) && negb (d_rnp a)) (f_specnone a) (d_rnp a) false (d_np a) a
+  | EIncNP => set_alg_facts (f_spec a) (f_specnone a) (d_rnp a) (d_rnf a) true a
   | EIncComp => set_debts (d_reg a) (d_ip a) (d_lat a) false (d_dp a) (d_inf a) (d_fb a) (d_best a) a
   | EDecPend => set_debts (d_reg a) (d_ip a) (d_lat a) (d_cc a) false (d_inf a) (d_fb a) (d_best a) a
   | EIncInf => set_debts (d_reg a) (d_ip a) (d_lat a) (d_cc a) (d_dp a) false (d_fb a) (d_best a) a
@@ -204,23 +234,26 @@ Definition post_br (cn : cond) (v : bool) (a : astate) : astate :=
   | CCurPending, true | CCurNotPending, false =>
       set_study_facts (f_idfresh a) (f_room a) (f_gotlat a) (f_latdone a) L (f_bestfresh a) (f_better a) a
   | CNoMeas, false => set_cur_facts true (f_own a) (f_inf a) (f_final a) a
+  | CSpecNone, true => set_alg_facts (f_spec a) R (d_rnp a) (d_rnf a) (d_np a) a
+  | CSpecNone, false => set_alg_facts (f_spec a || (R && negb (d_rnp a) && negb (d_rnf a))) false (d_rnp a) (d_rnf a) (d_np a) a
   | CBestBetter, false => set_debts (d_reg a) (d_ip a) (d_lat a) (d_cc a) (d_dp a) (d_inf a) (d_fb a) false a
   | CBestBetter, true => set_study_facts (f_idfresh a) (f_room a) (f_gotlat a) (f_latdone a) (f_curpend a) (f_bestfresh a) (f_bestfresh a && L && f_own a) a
   | _, _ => a
   end.
 
-Definition req (x : act) (a : astate) : bool :=
+Definition req (init : bool) (x : act) (a : astate) : bool :=
   a_ok a && footprint_ok x &&
   match x with
   | Acquire l => negb (holds l (a_locks a))
   | Release l => match a_locks a with
-                 | l' :: _ => lockref_eqb l l' && match l with LStudy => negb (d_lat a) | LReg => negb (d_reg a) | LAlgo => true end
+                 | l' :: _ => lockref_eqb l l' && match l with LStudy => negb (d_lat a) | LReg => negb (d_reg a) && negb (d_rnp a) && negb (d_rnf a) | LAlgo => true end
                  | [] => false
                  end
   | Stmt rd wr e => forallb (fun v => guarded (write_guard v) (a_locks a)) wr && forallb (fun v => guarded (read_guard v) (a_locks a)) rd && req_eff e a
   | Branch rd cn _ => forallb (fun v => guarded (read_guard v) (a_locks a)) rd && req_br cn a
   | Jump _ => true
-  | Throw _ | Done => match a_locks a with [] => no_debt a | _ => false end
+  | Throw _ => match a_locks a with [] => no_debt a && (init || f_spec a) | _ => false end
+  | Done => match a_locks a with [] => no_debt a && f_spec a | _ => false end
   end.
 
 Definition succs (i : nat) (b : bool) (a : astate) (x : act) : list (nat * bool * astate) :=
@@ -254,7 +287,8 @@ Definition opt_bool_eqb (x y : option bool) : bool :=
   match x, y with None, None => true | Some a, Some b => Bool.eqb a b | _, _ => false end.
 Definition debts_eqb (x y : astate) : bool :=
   Bool.eqb (d_reg x) (d_reg y) && Bool.eqb (d_ip x) (d_ip y) && Bool.eqb (d_lat x) (d_lat y) && Bool.eqb (d_cc x) (d_cc y) &&
-  Bool.eqb (d_dp x) (d_dp y) && Bool.eqb (d_inf x) (d_inf y) && Bool.eqb (d_fb x) (d_fb y) && Bool.eqb (d_best x) (d_best y).
+  Bool.eqb (d_dp x) (d_dp y) && Bool.eqb (d_inf x) (d_inf y) && Bool.eqb (d_fb x) (d_fb y) && Bool.eqb (d_best x) (d_best y) &&
+  Bool.eqb (d_rnp x) (d_rnp y) && Bool.eqb (d_rnf x) (d_rnf y) && Bool.eqb (d_np x) (d_np y).
 
 (* y claims no more than x *)
 Definition leq (x y : astate) : bool :=
@@ -262,6 +296,7 @@ Definition leq (x y : astate) : bool :=
   implb (f_regmiss y) (f_regmiss x) && implb (f_idfresh y) (f_idfresh x) && implb (f_room y) (f_room x) && implb (f_gotlat y) (f_gotlat x) &&
   implb (f_latdone y) (f_latdone x) && implb (f_curpend y) (f_curpend x) && implb (f_bestfresh y) (f_bestfresh x) && implb (f_better y) (f_better x) &&
   implb (f_hasmeas y) (f_hasmeas x) && implb (f_mine y) (f_mine x) && implb (f_own y) (f_own x) && implb (f_final y) (f_final x) && implb (f_reward y) (f_reward x) &&
+  implb (f_spec y) (f_spec x) && implb (f_specnone y) (f_specnone x) &&
   match f_inf y with None => true | Some v => inf_is (f_inf x) v end.
 
 Definition meet (x y : astate) : astate :=
@@ -270,7 +305,8 @@ Definition meet (x y : astate) : astate :=
      f_latdone := f_latdone x && f_latdone y; f_curpend := f_curpend x && f_curpend y; f_bestfresh := f_bestfresh x && f_bestfresh y;
      f_better := f_better x && f_better y; f_hasmeas := f_hasmeas x && f_hasmeas y; f_mine := f_mine x && f_mine y; f_own := f_own x && f_own y;
      f_inf := if opt_bool_eqb (f_inf x) (f_inf y) then f_inf x else None; f_final := f_final x && f_final y; f_reward := f_reward x && f_reward y;
-     d_reg := d_reg x; d_ip := d_ip x; d_lat := d_lat x; d_cc := d_cc x; d_dp := d_dp x; d_inf := d_inf x; d_fb := d_fb x; d_best := d_best x |}.
+     d_reg := d_reg x; d_ip := d_ip x; d_lat := d_lat x; d_cc := d_cc x; d_dp := d_dp x; d_inf := d_inf x; d_fb := d_fb x; d_best := d_best x;
+     f_spec := f_spec x && f_spec y; f_specnone := f_specnone x && f_specnone y; d_rnp := d_rnp x; d_rnf := d_rnf x; d_np := d_np x |}.
 
 Definition join (o : option astate) (a : astate) : option astate :=
   match o with None => Some a | Some x => Some (meet x a) end.
@@ -290,27 +326,31 @@ Definition infer_step (pr : prog) (an : annot) (i : nat) : annot :=
         end) [false; true] an
   end.
 
-Definition infer_prog (pr : prog) : annot :=
-  fold_left (infer_step pr) (seq 0 (length pr)) ((Some a0, Some a0) :: repeat (None, None) (length pr)).
+Definition infer_prog (init : bool) (pr : prog) : annot :=
+  fold_left (infer_step pr) (seq 0 (length pr)) ((Some (a0e init), Some (a0e init)) :: repeat (None, None) (length pr)).
 
-Definition check_at (pr : prog) (an : annot) (i : nat) (b : bool) : bool :=
+Definition check_at (init : bool) (pr : prog) (an : annot) (i : nat) (b : bool) : bool :=
   match an_get an i b with
   | None => true
   | Some a =>
       match nth_error pr i with
-      | None => a_ok a && match a_locks a with [] => no_debt a | _ => false end     (* falling off the end = returning *)
+      | None => a_ok a && match a_locks a with [] => no_debt a && f_spec a | _ => false end     (* falling off the end = returning *)
       | Some (_, x) =>
-          req x a &&
+          req init x a &&
           forallb (fun s => (fst (fst s) <=? length pr) &&
                             match an_get an (fst (fst s)) (snd (fst s)) with Some a' => leq (snd s) a' | None => false end) (succs i b a x)
       end
   end.
 
-Definition check_prog (pr : prog) (an : annot) : bool :=
+Definition check_prog (init : bool) (pr : prog) (an : annot) : bool :=
   match an_get an 0 false, an_get an 0 true with
-  | Some x, Some y => leq a0 x && leq a0 y
+  | Some x, Some y => leq (a0e init) x && leq (a0e init) y
   | _, _ => false
   end &&
-  forallb (fun i => check_at pr an i false && check_at pr an i true) (seq 0 (S (length pr))).
+  forallb (fun i => check_at init pr an i false && check_at init pr an i true) (seq 0 (S (length pr))).
 
-Definition disciplined (ps : progs) : bool := forallb (fun pr => check_prog pr (infer_prog pr)) ps.
+(* program 0 is the constructor *)
+Definition is_init (p : nat) : bool := Nat.eqb p P_init.
+Definition disciplined (ps : progs) : bool :=
+  match ps with [] => false | _ => true end &&   (* there is a constructor *)
+  forallb (fun ip => check_prog (is_init (fst ip)) (snd ip) (infer_prog (is_init (fst ip)) (snd ip))) (combine (seq 0 (length ps)) ps).
